@@ -124,7 +124,7 @@ def materialise(case):
     longquiet = set()
     for c in case["cuts"]:
         if isinstance(c, (list, tuple)) and c[0] == "Q":
-            # a long silence (14 s) on a healthy connection before line i
+            # a long silence (22 s) on a healthy connection before line i
             a, n = offs[c[1] % len(offs)]
             if a > 0:
                 cutset.add(a)
@@ -162,7 +162,7 @@ def materialise(case):
         if bounds[i + 1] in forced:
             d = 0.15
         if bounds[i + 1] in longquiet:
-            segs.append((stream[bounds[i]:bounds[i + 1]], 14.0))
+            segs.append((stream[bounds[i]:bounds[i + 1]], 22.0))
             continue
         if bounds[i + 1] in quiet:
             segs.append((stream[bounds[i]:bounds[i + 1]], 2.6))
@@ -211,7 +211,11 @@ def run_1090(case):
     # (--panic-display only concerns frames without a text form; none of the pool's are)
     s = Dump1090Session("c16", opts=(["--debug"] if case.get("dbg") else []) + (["--panic-display"] if case.get("pdisp") else []))
     try:
-        s.srv.send_segments(segs)
+        try:
+            s.srv.send_segments(segs)
+        except OSError as e:
+            fails.append(("C16/1090/left_without_disconnect", f"1090 closed the connection ({e.__class__.__name__}) although the server never disconnected; alive: {s.alive()}"))
+            return fails, w
         sent = SENTINELS[0].hex()
         s.send(b"\n" + F.line(SENTINELS[0]))
         ok = s.wait_for(lambda: sent in s.lines(), 10.0)
@@ -274,7 +278,13 @@ def run_radar(case):
             drop_at = int(drop["at"] * len(stream) / 10000)
         w = expected_w(items, len(stream), drop_at)
         if drop_at is None:
-            s.srv.send_segments(segs)
+            try:
+                s.srv.send_segments(segs)
+            except OSError as e:
+                # the server never closed the connection: a client that went away did so on its own
+                s.p.pump(0.5)
+                fails.append(("C16/radar/left_without_disconnect", f"radar closed the connection ({e.__class__.__name__}) although the server never disconnected; alive: {s.alive()}, said: {s.stderr()[-200:]}"))
+                return fails, w
         else:
             # send up to the drop point, close, (re-accept and) continue at the next line boundary
             sent = 0
@@ -396,6 +406,22 @@ def run_radar(case):
                     fails.append(("C16/radar/counts", f"Airplanes tab message counts {found}, the processed lines give {want}"))
                 else:
                     fails.append(("C16/radar/terminated", f"radar terminated: {s.stderr()[-400:]}"))
+            elif drop and drop.get("retry") and not case.get("limit"):
+                # ... and what it counted before the outage: "Total Airplanes" of the Stats tab is
+                # the number of aircraft added on both connections together
+                def total_shown():
+                    scr = s.fresh_screen()
+                    for r in range(scr.rows):
+                        ln = scr.line(r)
+                        if "Total Airplanes" in ln:
+                            parts = ln.split()
+                            return parts[-2] if parts[-1] == "│" else parts[-1]
+                    return None
+
+                s.press("F4")
+                want_total = str(exp["total_added"])
+                if not s.wait_for(lambda: total_shown() == want_total, 5.0) and s.alive():
+                    fails.append(("C16/radar/stats_after_reconnect", f"after the reconnect the Stats tab shows Total Airplanes {total_shown()}, {want_total} aircraft were added on the two connections together"))
         q = s.quit("q", 5.0)
         if q["rc"] != 0:
             fails.append(("C16/radar/quit", f"quit after the feed: exit status {q['rc']}"))
@@ -440,9 +466,17 @@ def classify(case):
 
 
 def run_case(case):
-    if case["client"] == "1090":
-        return run_1090(case)
-    return run_radar(case)
+    try:
+        if case["client"] == "1090":
+            return run_1090(case)
+        return run_radar(case)
+    except (BrokenPipeError, ConnectionResetError) as e:
+        # the harness could not write to the client any more.  If the server side never dropped
+        # the connection, the client went away on its own: it took a healthy connection for a
+        # broken one (or crashed without the session noticing)
+        if not case.get("drop"):
+            return [(f"C16/{case['client']}/left_without_disconnect", f"the client closed the connection ({e.__class__.__name__}) although the server never disconnected")], []
+        raise
 
 
 def worker(args):
@@ -534,7 +568,7 @@ def main():
         # every line of the pool three times in a row, and once in upper-case digits (both clients)
         + [{"client": cl, "items": [["gg", k] for k in range(h * 36, h * 36 + 36)], "cuts": [], "delays": [0], "drop": None, "limit": False} for cl in ("1090", "radar") for h in (0, 1)]
         + [{"client": cl, "items": [["gU", k] for k in range(72)], "cuts": [], "delays": [0], "drop": None, "limit": False} for cl in ("1090", "radar")]
-        # 14 s without a byte on a connection that stays up, then more lines (both clients)
+        # 22 s without a byte on a connection that stays up, then more lines (both clients)
         + [{"client": cl, "items": [["g", 3], ["g", 7], ["g", 11], ["g", 12], ["g", 13], ["g", 14]], "cuts": [["Q", 4]], "delays": [0], "drop": None, "limit": False} for cl in ("1090", "radar")]
         # a line cut in two (pause longer than the read timeout) right after the feed was silent for 2.6 s
         + [{"client": cl, "items": [["g", 3], ["g", 7], ["g", 11], ["g", 12], ["g", 13]], "cuts": [["q", 2], ["s", 2, w], ["s", 4, 1]], "delays": [5], "drop": None, "limit": False} for cl in ("1090", "radar") for w in (1, 2)]
